@@ -87,6 +87,8 @@ const (
 	oServerError obsClass = "server-error-5xx"         // don't-care: preserve or remove
 	oUnsupported obsClass = "unsupported-content-type" // don't-care: docs say both "ignored" and "removed"
 	oInternal    obsClass = "storage-internal-error"   // don't-care
+	// the source is there but refuses the request (expired credentials, throttling): nothing was learned about its content
+	oRefused obsClass = "request-refused"
 )
 
 type obs struct {
@@ -496,9 +498,10 @@ func (sc *stepCtx) checkSource(src string, o obs, before, after string, calls []
 			v(x(o.class == oGone, "removed", "emptied")+"-source-still-active",
 				"%s is %s but %s stays active (calls: %v)", shortSrc(src), o.class, after, calls)
 		}
-	case oInvalid, oTransport, oTimeout:
+	case oInvalid, oTransport, oTimeout, oRefused:
 		if after != before {
-			what := map[obsClass]string{oInvalid: "invalid-content", oTransport: "transport-error", oTimeout: "timeout"}[o.class]
+			what := map[obsClass]string{oInvalid: "invalid-content", oTransport: "transport-error", oTimeout: "timeout",
+				oRefused: "refused-request"}[o.class]
 			if after == "" {
 				v("unloaded-on-"+what, "%s: %s observed, previously loaded %s was unloaded (calls: %v)", shortSrc(src), o.class, before, calls)
 			} else {
